@@ -7,6 +7,8 @@ import AttrsModel.Proofs.C11Refine
 import AttrsModel.Proofs.C11Term
 import AttrsModel.Proofs.C11Name
 import AttrsModel.Proofs.C11Threads
+import AttrsModel.Proofs.C11Script
+import AttrsModel.Spec.C11
 
 namespace Attrs.C11
 
@@ -55,12 +57,18 @@ theorem accept_self (e : Out) (h : e ≠ .oof) : accept e e = true := by
   | exc k => simp only [accept]; split <;> simp [Out.isExc]
   | oof => exact absurd rfl h
 
-theorem expected_eq (c : Case) (hwf : wf c = true) (armed : Bool) :
+theorem expected_eq' (c : Case) (hcls : ∀ cl ∈ c.heap.classes, cl.wf = true) (armed : Bool) :
     specVal displayName c.heap armed c.heap.fuel [] c.root = expected c armed := by
   unfold expected
-  refine specVal_congr_name displayName specName c.heap armed (fun cl hcl => ?_) _ _ _
+  exact specVal_congr_name displayName specName c.heap armed (fun cl hcl => displayName_eq cl (hcls cl hcl)) _ _ _
+
+theorem classes_wf_of_wf (c : Case) (hwf : wf c = true) : ∀ cl ∈ c.heap.classes, cl.wf = true := by
   simp only [wf, Bool.and_eq_true, List.all_eq_true] at hwf
-  exact displayName_eq cl (hwf.1.2 cl hcl)
+  exact hwf.1.2
+
+theorem expected_eq (c : Case) (hwf : wf c = true) (armed : Bool) :
+    specVal displayName c.heap armed c.heap.fuel [] c.root = expected c armed :=
+  expected_eq' c (classes_wf_of_wf c hwf) armed
 
 theorem expected_ne_oof (c : Case) (armed : Bool) : expected c armed ≠ .oof :=
   specVal_ne_oof specName c.heap armed c.heap.fuel [] c.root (unvisited_nil_lt_fuel c.heap)
